@@ -33,24 +33,26 @@ def load_model_from_file(path, register=False):
         If the model cannot be imported
     """
     path = pathlib.Path(path)
+    sys_path = list(sys.path)
+    dont_write_bytecode = sys.dont_write_bytecode
     try:
         # insert the plugin directory to sys.path so we can import it
         sys.path.insert(-1, str(path.parent))
         sys.dont_write_bytecode = True
         module = importlib.import_module(path.stem)
-    except ModuleNotFoundError:
-        raise ModelImportError(f"Could not import '{path}'!")
+    except Exception as exc:
+        raise ModelImportError(f"Could not import '{path}'!") from exc
     finally:
         # undo our path insertion
-        sys.path.remove(str(path.parent))
-        sys.dont_write_bytecode = False
+        sys.path[:] = sys_path
+        sys.dont_write_bytecode = dont_write_bytecode
 
-        mod = NaniteFitModel(module)
+    mod = NaniteFitModel(module)
 
-        if register:
-            register_model(module)
+    if register:
+        register_model(module)
 
-        return mod
+    return mod
 
 
 def register_model(module, *args):
